@@ -37,6 +37,8 @@ namespace
         for (double d : {0.0, 1e5}) for (double lat : {0.0, 45.0}) { w.pts.push_back({180, lat, d, false, {{0,0,0}}, "meridian +180"}); w.pts.push_back({-180, lat, d, false, {{0,0,0}}, "meridian -180"}); }
         w.pts.push_back({0, 0, R_EARTH, true, {{0,0,0}}, "centre of the sphere"});
         w.pts.push_back({0, 0, R_EARTH - 1.0, true, {{0,0,1.0}}, "1 m from the centre"});
+        // depth and position are independent arguments: the centre of the planet with a small depth (radius + depth - min depth = 0 inside some models)
+        for (double d : {0.0, 1.0, 5e4, 1e5}) w.pts.push_back({0, 0, d, true, {{0,0,0}}, "centre of the sphere, depth given independently"});
       }
     else
       {
@@ -132,11 +134,10 @@ namespace
   }
 
   // ---- family 3: area features and plumes with degenerate geometry / parameters ----
-  void family_area(std::vector<WCase> &out, bool thorough)
+  void family_area_in(std::vector<WCase> &out, bool sph)
   {
-    (void)thorough;
     struct A { const char *name; std::string feat_cart; };
-    const double s = 1e5;
+    const double s = sph ? 1.0 : 1e5;
     auto sqs = [&](double x0, double x1, double y0, double y1) { return pts({{x0*s,y0*s},{x1*s,y0*s},{x1*s,y1*s},{x0*s,y1*s}}); };
     const std::string ridge = "\"ridge coordinates\":[[" + pt({1*s,-6*s}) + "," + pt({1*s,6*s}) + "]]";
     const std::vector<A> feats =
@@ -151,6 +152,11 @@ namespace
       {"half space on the ridge", "{\"model\":\"oceanic plate\",\"name\":\"A\",\"max depth\":1e5,\"coordinates\":" + sqs(0,4,0,4) + ",\"temperature models\":[{\"model\":\"half space model\",\"max depth\":1e5,\"spreading velocity\":0.05," + ridge + "}]}"},
       {"plate model constant age 0", "{\"model\":\"oceanic plate\",\"name\":\"A\",\"max depth\":1e5,\"coordinates\":" + sqs(0,4,0,4) + ",\"temperature models\":[{\"model\":\"plate model constant age\",\"max depth\":1e5,\"plate age\":0}]}"},
       {"plate model max depth 0", "{\"model\":\"oceanic plate\",\"name\":\"A\",\"max depth\":1e5,\"coordinates\":" + sqs(0,4,0,4) + ",\"temperature models\":[{\"model\":\"plate model\",\"max depth\":0,\"spreading velocity\":0.05," + ridge + "}]}"},
+      {"linear layer starting at the plate bottom", "{\"model\":\"continental plate\",\"name\":\"A\",\"max depth\":1e5,\"coordinates\":" + sqs(0,4,0,4) + ",\"temperature models\":[{\"model\":\"linear\",\"min depth\":1e5,\"max depth\":2e5,\"top temperature\":300,\"bottom temperature\":1500}]}"},
+      {"linear layer ending at the plate top", "{\"model\":\"continental plate\",\"name\":\"A\",\"min depth\":1e5,\"max depth\":2e5,\"coordinates\":" + sqs(0,4,0,4) + ",\"temperature models\":[{\"model\":\"linear\",\"min depth\":0,\"max depth\":1e5,\"top temperature\":300,\"bottom temperature\":-1}]}"},
+      {"oceanic linear layer starting at the plate bottom", "{\"model\":\"oceanic plate\",\"name\":\"A\",\"max depth\":1e5,\"coordinates\":" + sqs(0,4,0,4) + ",\"temperature models\":[{\"model\":\"linear\",\"min depth\":1e5,\"max depth\":2e5,\"top temperature\":300,\"bottom temperature\":1500}]}"},
+      {"mantle linear layer ending at the layer top", "{\"model\":\"mantle layer\",\"name\":\"A\",\"min depth\":1e5,\"max depth\":2e5,\"coordinates\":" + sqs(0,4,0,4) + ",\"temperature models\":[{\"model\":\"linear\",\"min depth\":0,\"max depth\":1e5,\"top temperature\":-1,\"bottom temperature\":1500}]}"},
+      {"chapman layer starting at the plate bottom", "{\"model\":\"continental plate\",\"name\":\"A\",\"max depth\":1e5,\"coordinates\":" + sqs(0,4,0,4) + ",\"temperature models\":[{\"model\":\"chapman\",\"min depth\":1e5,\"max depth\":2e5}]}"},
       {"chapman", "{\"model\":\"continental plate\",\"name\":\"A\",\"max depth\":2e5,\"coordinates\":" + sqs(0,4,0,4) + ",\"temperature models\":[{\"model\":\"chapman\",\"max depth\":2e5}]}"},
       {"depth surface with one point", "{\"model\":\"continental plate\",\"name\":\"A\",\"max depth\":[[1e5,[" + pt({2*s,2*s}) + "]]],\"coordinates\":" + sqs(0,4,0,4) + ",\"temperature models\":[{\"model\":\"linear\",\"max depth\":[[1e5,[" + pt({2*s,2*s}) + "]]]}]}"},
       {"depth surface on a corner", "{\"model\":\"oceanic plate\",\"name\":\"A\",\"max depth\":[[2e5],[1e5,[" + pt({0,0}) + "," + pt({4*s,4*s}) + "]]],\"coordinates\":" + sqs(0,4,0,4) + ",\"temperature models\":[{\"model\":\"uniform\",\"temperature\":500}]}"},
@@ -162,13 +168,20 @@ namespace
     };
     for (auto &f : feats)
       {
-        WCase w; w.sph = false; w.has_cs = false; w.family = std::string("area/") + f.name;
-        w.text = world(coord(false), {f.feat_cart});
+        WCase w; w.sph = sph; w.has_cs = false; w.family = std::string(sph ? "area (spherical)/" : "area/") + f.name;
+        w.text = world(coord(sph), {f.feat_cart});
         const std::vector<double> depths = {0.0, 1.0, 5e4, 1e5, 1.5e5, 2e5, 3e5, 4e5};
         add_special(w, {{{0,0}}, {{4*s,0}}, {{4*s,4*s}}, {{0,4*s}}, {{2*s,0}}, {{2*s,2*s}}, {{1*s,2*s}}, {{1*s,0}}, {{3*s,2*s}}, {{2.5*s,2*s}}, {{2*s,3*s}}, {{2*s,2.5*s}}, {{9*s,9*s}}, {{2.0000001*s,2*s}}}, depths, "vertices, edges, ridge, plume axis and rim");
         add_global_specials(w);
         out.push_back(w);
       }
+  }
+
+  void family_area(std::vector<WCase> &out, bool thorough)
+  {
+    (void)thorough;
+    family_area_in(out, false);
+    family_area_in(out, true);
   }
 
   // ---- family 4: degenerate cross section (2-D interface) ----
